@@ -53,7 +53,7 @@ def run(ctx):
     required = ["fact_sweep_threshold", "fact_transaction_helper_shape", "fact_rollback_deletes_created_did",
                 "fact_nuts_not_found_is_uncommitted", "fact_web_commit_cannot_fail", "fact_version_is_latest_plus_one",
                 "fact_sweep_handles_whole_transaction", "fact_deactivation_renders_as_published", "fact_rollback_loop_wiring", "fact_method_manager_wiring",
-                "fact_latest_is_highest_version", "old_iscommitted_blocks_sweep", "old_rollback_blocks_retry", "old_sweep_splits_transaction"]
+                "fact_latest_is_highest_version", "fact_create_checks_subject_inside_transaction", "old_iscommitted_blocks_sweep", "old_rollback_blocks_retry", "old_sweep_splits_transaction"]
     required += REQUIRED_DEEP
     for r in required:
         if not any(t.endswith("Props." + r) for t in thms):
@@ -84,6 +84,8 @@ def run(ctx):
         ctx.oblige("harness-builds", False, ctx.harness_error[-1500:])
         return
     ctx.oblige("harness-builds", True)
+    if not ctx.replay:
+        concurrent_leg(ctx, binary)
     env = {}
     if ctx.replay:
         env["VERIF_REPLAY"] = os.path.abspath(ctx.replay)
@@ -305,6 +307,45 @@ def run(ctx):
     ctx.cov["samples"] = [json.dumps(worlds[1]["ops"][:4])[:400] if len(worlds) > 1 else "", impl[worlds[1]["start"] + 2][:300] if len(worlds) > 1 else ""]
 
 
+def concurrent_leg(ctx, binary):
+    """requests for one subject name interleaved at query granularity (gorm callback gate) + a goroutine variant; real managers.
+    Oracle on the implementation's outputs: at most one DID per enabled method, exactly one Create succeeds for a new name (none for an
+    existing one), all DIDs of the subject at the same versions, no change record left."""
+    rc, log, out = ctx.run_harness(binary, "TestVerifC13Conc", {}, outdir=os.path.join(ctx.scratch, "outc"), timeout=600)
+    if rc != 0:
+        ctx.oblige("concurrent-leg-runs", False, log[-1200:])
+        return
+    ctx.oblige("concurrent-leg-runs", True)
+    lines = [json.loads(l) for l in ctx.read_lines(os.path.join(out, "conc.jsonl")) if l.strip()]
+    bad = []
+    fired = 0
+    for d in lines:
+        what = []
+        fired += 1 if d.get("fired") and any(d["fired"]) else 0
+        per = d["dids_per_method"]
+        if any(v > 1 for v in per.values()):
+            what.append(f"the subject maps to {per} DIDs (more than one per method)")
+        creates_ok = sum(1 for r, q in zip(d["results"], d["requests"]) if q == "create" and r == "ok")
+        want = 0 if d["pre"] else 1
+        goroutines = d["scenario"].startswith("goroutines")
+        if creates_ok > max(want, 0) or (not goroutines and creates_ok != want):
+            what.append(f"{creates_ok} Create requests for one subject name succeeded (results {d['results']})")
+        vs = {re.sub(r"^[a-z]+", "", v) for v in d["versions"]}
+        if len(vs) > 1:
+            what.append(f"DIDs of the subject at different versions: {d['versions']}")
+        if d["log"] != 0:
+            what.append(f"{d['log']} change records left")
+        if what:
+            bad.append((d, what))
+    ctx.oblige("oracle:concurrent-requests(one DID set per subject name)", not bad, f"{len(bad)} of {len(lines)} scenarios: " + "; ".join(w for _, ws in bad[:2] for w in ws)[:600])
+    for d, what in bad[:1]:
+        ctx.violation("C13:concurrent:subject-maps-to-more-than-one-did-set", f"{d['scenario']} gates {d.get('gates')}: " + "; ".join(what), "concurrent.jsonl",
+                      json.dumps(d) + "\n# TestVerifC13Conc (harness/inpkg/vdr/didsubject/zz_verif_c13_test.go): requests in order; request i+1 starts at the gates[i]-th query of request i "
+                      "that is not part of an open SQL transaction (afterwards if there is none); deterministic, ./check C13 re-runs it\n")
+    ctx.cov["concurrent_leg_scenarios"] = len(lines)
+    ctx.cov["concurrent_leg_interleaved_inside_a_request"] = fired
+
+
 def wiring_leg(ctx):
     """full-stack leg: real vdr.Module (NewVDR/Configure/Start), real network + ambassador + didstore; every cut of create/addsvc/addkey/deact,
     sweep through Module.rollbackLoop. Oracle on the implementation's outputs only."""
@@ -359,4 +400,5 @@ def wiring_leg(ctx):
 
 REQUIRED_DEEP = ["uniform_versions", "versions_consecutive", "versions_consecutive_monotone", "subject_unique", "all_or_nothing",
                  "failed_commit_restores", "retry_enabled", "cfgNow_fixed", "stopped_operation_resolved",
-                 "abandoned_keys_unpublished_partial", "abandoned_keys_unpublished"]
+                 "abandoned_keys_unpublished_partial", "abandoned_keys_unpublished",
+                 "create_check_and_write_are_one_step", "non_atomic_create_breaks_subject_unique"]
